@@ -67,6 +67,7 @@ def tableReport : List String := [
   s!"fields {fields.length} bad {nats (failing fields fieldOk)}",
   s!"confinedOps {confinedOps.length} bad {nats (failing confinedOps confinedOk)}",
   s!"roots {roots.length} unlisted {nats (failing roots confinedListed)}",
+  "tsAsserting " ++ semi (tsAsserting.map (fun o => o.cls ++ "::" ++ o.fn)),
   "reqConfined missing " ++ semi ((requiredConfined.filter
       (fun (c, f) => !confinedOps.any (fun o => o.cls == c && o.fn == f))).map (fun (c, f) => c ++ "::" ++ f)),
   "reqRoots missing " ++ semi (requiredRoots.filter (fun q => !rootPresent q)),
